@@ -68,9 +68,16 @@ def mech_and_ref(e, sp, rnd, wk):
     if m in ('CKM_AES_CBC', 'CKM_DES3_CBC'):
         c = R.cipher('aes' if 'AES' in m else 'des3', wk); iv = rb(rnd, c.bs); sp['_iv'] = iv.hex()
         return x.M(m, hex=iv.hex()), (lambda pt: R.cbc(c, iv, pt) if pt and len(pt) % c.bs == 0 else None), (lambda b: R.cbc(c, iv, b, False) if b and len(b) % c.bs == 0 else None), True
-    if m == 'CKM_RSA_PKCS': return x.M(m), (lambda pt: wk.encrypt_pkcs1(pt, rnd) if len(pt) <= wk.k - 11 else None), wk.decrypt_pkcs1, False
+    def lz(f):                                             # boundary: a reference blob whose big-endian value starts with a zero byte (the length stays k)
+        if not sp.get('lz'): return f
+        def g(pt):
+            for _ in range(6000):
+                b = f(pt)
+                if b is None or b[0] == 0: return b
+        return g
+    if m == 'CKM_RSA_PKCS': return x.M(m), lz(lambda pt: wk.encrypt_pkcs1(pt, rnd) if len(pt) <= wk.k - 11 else None), wk.decrypt_pkcs1, False
     if m == 'CKM_RSA_PKCS_OAEP':
-        return (x.M(m, oaep={'hash': ck.CKM_SHA_1, 'mgf': ck.CKG_MGF1_SHA1, 'source': ck.CKZ_DATA_SPECIFIED}), (lambda pt: wk.encrypt_oaep(pt, 'sha1', rnd=rnd) if len(pt) <= wk.k - 42 else None),
+        return (x.M(m, oaep={'hash': ck.CKM_SHA_1, 'mgf': ck.CKG_MGF1_SHA1, 'source': ck.CKZ_DATA_SPECIFIED}), lz(lambda pt: wk.encrypt_oaep(pt, 'sha1', rnd=rnd) if len(pt) <= wk.k - 42 else None),
                 (lambda b: wk.decrypt_oaep(b, 'sha1')), False)
     raise KeyError(m)
 
@@ -302,6 +309,7 @@ def fam_templates(e, sp, rnd):
     return positive
 
 def DERIVE_FAMILY(cls):
+    cls = cls.replace(':zero-byte-at-end-of-secret', '')
     if cls.startswith('CKM_ECDH1_DERIVE'): return 'CKM_ECDH1_DERIVE:' + ('montgomery' if cls.split(':')[1].startswith('X') else 'EC')
     if 'ENCRYPT_DATA' in cls or 'CONCATENATE' in cls: return 'symmetric-derive'
     return cls
@@ -340,14 +348,15 @@ def fam_derive_asym(e, sp, rnd):
     K = KF.load(); ck = e.ck; x = e.x; src = sp['src']; kind = sp['kind']; n = sp['n']
     if UNSUPPORTED.get((e.cfg, sp.get('curve'))): e.part.observe('parameter set not implemented by this back-end', {'cfg': e.cfg, 'curve': sp.get('curve')}); return False
     if src == 'dh':
-        own, peer = K['dh'][sp['group']]; peer = R.DHKey(own.p, own.g, rnd.randrange(2, (own.p - 1) // 2)) if rnd.random() < 0.7 else peer
+        own, peer = K['dh'][sp['group']]; peer = KF.leadz_peers()['dh'][sp['group']][sp['peer']] if sp.get('peer') else R.DHKey(own.p, own.g, rnd.randrange(2, (own.p - 1) // 2)) if rnd.random() < 0.7 else peer
         Z = own.derive(peer.y); mech = x.M('CKM_DH_PKCS_DERIVE', hex=KF.ib(peer.y).hex()); hb = e.t.dh_priv(own); cls = 'CKM_DH_PKCS_DERIVE'; sp['needs_len'] = True
     elif src == 'ecdh':
-        own, peer = K['ec'][sp['curve']]; peer = R.ECKey(own.c, rnd.randrange(1, own.c.n)) if rnd.random() < 0.7 else peer
+        own, peer = K['ec'][sp['curve']]; peer = KF.leadz_peers()['ec'][sp['curve']][sp['peer']] if sp.get('peer') else R.ECKey(own.c, rnd.randrange(1, own.c.n)) if rnd.random() < 0.7 else peer
         Z = own.ecdh(peer.Q); pub = peer.point(); pub = R.der_octets(pub) if rnd.random() < 0.5 else pub; mech = x.M('CKM_ECDH1_DERIVE', ecdh1={'kdf': ck.CKD_NULL, 'public': pub.hex()}); hb = e.t.ec_priv(own); cls = 'CKM_ECDH1_DERIVE:' + sp['curve']
     else:
-        own, peer = K['x'][sp['curve']]; peer = R.XKey(sp['curve'], rb(rnd, len(own.sk))) if rnd.random() < 0.7 else peer
+        own, peer = K['x'][sp['curve']]; peer = KF.leadz_peers()['x'][sp['curve']][sp['peer']] if sp.get('peer') else R.XKey(sp['curve'], rb(rnd, len(own.sk))) if rnd.random() < 0.7 else peer
         Z = own.derive(peer.pk); pub = R.der_octets(peer.pk) if rnd.random() < 0.5 else peer.pk; mech = x.M('CKM_ECDH1_DERIVE', ecdh1={'kdf': ck.CKD_NULL, 'public': pub.hex()}); hb = e.t.x_priv(own); cls = 'CKM_ECDH1_DERIVE:' + sp['curve']
+    if sp.get('peer'): cls += ':zero-byte-at-end-of-secret'          # the shared secret starts (DH/ECDH: 1 or 2 bytes; X: first or last byte) with zero
     before = e.t.handles(); rv, h = e.derive(mech, hb, derive_template(e, kind, n, rnd))
     return check_derived(e, sp, cls, rv, h, Z, kind, n, 'trailing', before)
 
@@ -398,10 +407,10 @@ def fam_kcv(e, sp, rnd):
 RUN = {'wrap_secret': fam_wrap_secret, 'wrap_private': fam_wrap_private, 'templates': fam_templates, 'derive_asym': fam_derive_asym, 'derive_sym': fam_derive_sym, 'kcv': fam_kcv}
 def distinct_key(sp):
     f = sp['fam']
-    if f == 'wrap_secret': return (f, sp['mech'], sp.get('wlen') or sp.get('wbits'), sp['kind'], sp['klen'])
+    if f == 'wrap_secret': return (f, sp['mech'], sp.get('wlen') or sp.get('wbits'), sp['kind'], sp['klen'], bool(sp.get('lz')))
     if f == 'wrap_private': return (f, sp['mech'], sp.get('wlen'), tuple(sp['pk']))
     if f == 'templates': return (f, sp['which'], sp['i'] % 8)
-    if f == 'derive_asym': return (f, sp['src'], sp.get('group') or sp.get('curve'), sp['kind'], sp['n'])
+    if f == 'derive_asym': return (f, sp['src'], sp.get('group') or sp.get('curve'), sp['kind'], sp['n'], sp.get('peer'))
     if f == 'derive_sym': return (f, sp['mech'], sp['blen'], sp['dlen'], sp['kind'], sp['n'])
     return (f, sp['how'], sp['kind'], sp['klen'])
 
@@ -446,6 +455,8 @@ def specs(rnd, thorough):
             k = (wb + 7) // 8
             for kind, n in [('aes', 16), ('aes', 32), ('des3', 24), ('generic', 1), ('generic', 20), ('generic', 64), ('generic', k - ov - 1), ('generic', k - ov), ('generic', k - ov + 1)]:
                 for _ in range(1 if q else 2): add(fam='wrap_secret', mech=m, wbits=wb, kind=kind, klen=n)
+            if wb in (1024, 2048):
+                for kind, n in (('aes', 16), ('generic', 33)): add(fam='wrap_secret', mech=m, wbits=wb, kind=kind, klen=n, lz=True, malformed=False)
     privs = [('rsa', 1024), ('rsa', 1025), ('ec', 'P-256'), ('ec', 'P-384'), ('ec', 'P-521'), ('dsa', (1024, 160)), ('dh', 'modp1024'), ('dh', 'dsa1024'), ('ed', 'Ed25519'), ('ed', 'Ed448'), ('x', 'X25519'), ('x', 'X448')] + ([] if q else [('rsa', 2048), ('rsa', 4096), ('dsa', (2048, 256)), ('dh', 'modp2048')])
     for m in ('CKM_AES_KEY_WRAP', 'CKM_AES_KEY_WRAP_PAD', 'CKM_AES_CBC_PAD'):
         for wl in (16, 24, 32):
@@ -458,11 +469,14 @@ def specs(rnd, thorough):
     for cv, zl in (('P-256', 32), ('P-384', 48), ('P-521', 66)):
         for kind, n in targets(zl):
             for _ in range(2 if q else 12): add(fam='derive_asym', src='ecdh', curve=cv, kind=kind, n=n)
+            for pz in (1, 2): add(fam='derive_asym', src='ecdh', curve=cv, kind=kind, n=n, peer=pz)          # stored peers: secret with 1 / 2 leading zero bytes
     for cv, zl in (('X25519', 32), ('X448', 56)):
         for kind, n in targets(zl):
+            for pz in ('lead', 'trail'): add(fam='derive_asym', src='x', curve=cv, kind=kind, n=n, peer=pz)
             for _ in range(2 if q else 8): add(fam='derive_asym', src='x', curve=cv, kind=kind, n=n)
     for g, zl in ((('modp1024', 128), ('dsa1024', 128)) if q else (('modp1024', 128), ('dsa1024', 128), ('modp2048', 256))):
         for kind, n in targets(zl):
+            for pz in (1, 2): add(fam='derive_asym', src='dh', group=g, kind=kind, n=n, peer=pz)
             for _ in range(2 if q else 6): add(fam='derive_asym', src='dh', group=g, kind=kind, n=n)
     # derive: data encryption and concatenation
     for m, bls, bs in (('CKM_AES_ECB_ENCRYPT_DATA', (16, 24, 32), 16), ('CKM_AES_CBC_ENCRYPT_DATA', (16, 24, 32), 16), ('CKM_DES3_ECB_ENCRYPT_DATA', (16, 24), 8), ('CKM_DES3_CBC_ENCRYPT_DATA', (16, 24), 8)):
